@@ -219,6 +219,104 @@ pub fn through_loader(l: &Layout) -> Option<Layout> {
   load_value(&layout_json(l)).ok()
 }
 
+/// A layout written with the alias shorthand, together with what the text means as a plain list of
+/// mappings (the README's rules: an alias definition `{"from": K.., "to": [initial.., "@a"]}` is
+/// also the mapping K.. -> initial.. unless K.. is exactly one standard modifier; a mapping whose
+/// trigger names "@a" stands for one mapping per definition, in definition order, an "@a" on the
+/// output side standing for the keys chosen on the trigger side; a repeat-only entry sets the repeat
+/// mode of the mappings with the same trigger set or, where there is none, adds an identity mapping
+/// at the end). The tree under test loads the text; the oracles judge against the meaning. This is
+/// not a check of the expansion itself (C13 is not claimed): it lets the run-time oracles see layouts
+/// that went through the alias and repeat-only paths of the converter.
+pub fn gen_alias_written(rng: &mut Rng, o: &LayoutOpts) -> Option<(Layout, String)> {
+  use serde_json::json;
+  let trig = if o.big { TRIG_POOL_BIG } else { TRIG_POOL };
+  let omods = if o.big { OUT_MODS_BIG } else { OUT_MODS };
+  let oact = if o.big { OUT_ACT_BIG } else { OUT_ACT };
+  let names = |ks: &Vec<KeyCode>| -> Vec<serde_json::Value> { ks.iter().map(|k| json!(key_name(k))).collect() };
+  let repeat_json = |r: &Repeat| -> serde_json::Value { layout_json(&Layout { mappings: vec![Mapping { from: vec![A], to: vec![], repeat: r.clone(), absorbing: vec![] }] })["mappings"][0].get("repeat").cloned().unwrap_or(json!("Normal")) };
+  let mut entries: Vec<serde_json::Value> = vec![];
+  let mut meaning: Vec<Mapping> = vec![];
+  // definitions of the one alias
+  let nd = rng.range(1, 3);
+  let mut defs: Vec<Vec<KeyCode>> = vec![];
+  let mut guard = 0;
+  while defs.len() < nd && guard < 40 {
+    guard += 1;
+    let from: Vec<KeyCode> = if rng.chance(1, 5) { let a = rng.pick(omods); let b = rng.pick(omods); if a == b { continue; } vec![a, b] } else { vec![rng.pick(trig)] };
+    if defs.iter().any(|d| d.iter().any(|k| from.contains(k))) { continue; }
+    let initial: Vec<KeyCode> = match rng.below(3) { 0 => { let m = rng.pick(omods); if from.contains(&m) { vec![] } else { vec![m] } } _ => vec![] };
+    let mut to = names(&initial); to.push(json!("@a"));
+    entries.push(json!({"from": names(&from), "to": to}));
+    if !(from.len() == 1 && is_mod(&from[0])) { meaning.push(Mapping { from: from.clone(), to: initial, repeat: Repeat::Normal, absorbing: vec![] }); }
+    defs.push(from);
+  }
+  if defs.is_empty() { return None; }
+  let used: Vec<KeyCode> = defs.iter().flatten().cloned().collect();
+  let gen_repeat = |rng: &mut Rng| -> Repeat {
+    if o.norepeat && rng.chance(1, 3) { Repeat::Disabled } else if o.special && rng.chance(1, 3) {
+      let mut keys = vec![]; for _ in 0..rng.below(3) { let k = if rng.chance(1, 3) { rng.pick(omods) } else { rng.pick(oact) }; uniq_push(&mut keys, k); }
+      Repeat::Special { keys, delay_ms: 100 + rng.below(100) as i32, interval_ms: 10 + rng.below(50) as i32 }
+    } else { Repeat::Normal } };
+  // chords on the alias
+  let nf = rng.range(1, 3);
+  let mut finals: Vec<KeyCode> = vec![];
+  guard = 0;
+  while finals.len() < nf && guard < 40 { guard += 1; let k = rng.pick(trig); if !used.contains(&k) { uniq_push(&mut finals, k); } }
+  let mut repeat_only: Vec<(Vec<Vec<KeyCode>>, Repeat)> = vec![];
+  for f in &finals {
+    let mut to: Vec<KeyCode> = vec![];
+    if rng.chance(1, 3) { let m = rng.pick(omods); if !used.contains(&m) { to.push(m); } }
+    if !rng.chance(1, 8) { let k = if rng.chance(1, 4) { *f } else { rng.pick(oact) }; if !used.contains(&k) { uniq_push(&mut to, k); } }
+    let alias_out = rng.chance(1, 3) && to.iter().any(|k| !is_mod(k));
+    let repeat = gen_repeat(rng);
+    match rng.below(6) {
+      // the chord is mapped for one definition only, by a plain entry, and a repeat-only entry names the alias
+      0 if defs.len() >= 2 => {
+        let d = &defs[rng.below(defs.len())];
+        let mut from = d.clone(); from.push(*f);
+        entries.push(json!({"from": names(&from), "to": names(&to)}));
+        meaning.push(Mapping { from, to: to.clone(), repeat: Repeat::Normal, absorbing: vec![] });
+        let r = if repeat == Repeat::Normal { Repeat::Disabled } else { repeat.clone() };
+        entries.push(json!({"from": ["@a", key_name(f)], "repeat": repeat_json(&r)}));
+        repeat_only.push((defs.iter().map(|d| { let mut t = d.clone(); t.push(*f); t }).collect(), r));
+      }
+      // a repeat-only entry on the alias with nothing mapped: identity chords for every definition
+      1 => {
+        let r = if repeat == Repeat::Normal { Repeat::Disabled } else { repeat.clone() };
+        entries.push(json!({"from": ["@a", key_name(f)], "repeat": repeat_json(&r)}));
+        repeat_only.push((defs.iter().map(|d| { let mut t = d.clone(); t.push(*f); t }).collect(), r));
+      }
+      _ => {
+        let mut tj = names(&to); if alias_out { tj.insert(0, json!("@a")); }
+        let mut e = json!({"from": ["@a", key_name(f)], "to": tj});
+        if repeat != Repeat::Normal { e["repeat"] = repeat_json(&repeat); }
+        entries.push(e);
+        for d in &defs {
+          let mut from = d.clone(); from.push(*f);
+          let mut t = if alias_out { d.clone() } else { vec![] }; t.extend(to.iter().cloned());
+          meaning.push(Mapping { from, to: t, repeat: repeat.clone(), absorbing: vec![] });
+        }
+      }
+    }
+    if rng.chance(1, 4) { let k = rng.pick(oact); if !used.contains(&k) { entries.push(json!({"from": key_name(f), "to": key_name(&k)})); meaning.push(Mapping { from: vec![*f], to: vec![k], repeat: Repeat::Normal, absorbing: vec![] }); } }
+  }
+  // repeat-only entries take effect after everything else: same trigger set => set the repeat, none => identity mapping at the end
+  let same_set = |a: &Vec<KeyCode>, b: &Vec<KeyCode>| -> bool { a.last() == b.last() && a.len() == b.len() && a.iter().all(|k| b.contains(k)) };
+  for (triggers, r) in &repeat_only {
+    for t in triggers {
+      let mut hit = false;
+      for m in meaning.iter_mut() { if same_set(&m.from, t) { m.repeat = r.clone(); hit = true; } }
+      if !hit { meaning.push(Mapping { from: t.clone(), to: t.clone(), repeat: r.clone(), absorbing: vec![] }); }
+    }
+  }
+  if meaning.is_empty() { return None; }
+  // no key twice in a trigger or an output (the loader rejects that)
+  for m in &meaning { for (i, k) in m.from.iter().enumerate() { if m.from[..i].contains(k) { return None; } } for (i, k) in m.to.iter().enumerate() { if m.to[..i].contains(k) { return None; } } }
+  let text = serde_json::to_string(&json!({"mappings": entries})).ok()?;
+  Some((Layout { mappings: meaning }, text))
+}
+
 /// The same layout as a user might write it in a file: the repeat mode of some triggers is given by
 /// a separate repeat-only entry ({"from": .., "repeat": ..}: "sets the repeat mode of the mappings
 /// with the same trigger set, or adds an identity mapping if there is none"), with the modifiers of
